@@ -255,7 +255,7 @@ def to_ouv(o) -> str:
 # running Coq on cases (several verdict functions per file)
 # ---------------------------------------------------------------------------
 
-def coq_verdicts(name: str, cases: list[str], case_type: str, funs: list[str], shard=400, jobs=4, timeout=600, imports="UnionModel UnionCases", gen_imports="", needs=()):
+def coq_verdicts(name: str, cases: list[str], case_type: str, funs: list[str], shard=400, jobs=4, timeout=2400, imports="UnionModel UnionCases", gen_imports="", needs=()):
     """For each function f in funs: indices i with f (case i) = false. None + log when Coq failed."""
     br = vlib.coq_make(["theories/Wire.vo", "theories/PyK.vo", "theories/UnionCases.vo", "theories/UnionDeep.vo"] + list(needs), jobs=4)
     if not br.ok:
@@ -1662,7 +1662,7 @@ def deep_enc_part(ctx: vlib.Ctx, mod, mem: Members):
             if pool and rng.random() < 0.5:
                 ox, ov = rng.choice(pool)
                 osubs = subvalues(ov)
-                if ascii_only_str(osubs) and len(rcases) < ctx.budget(900, 6000):
+                if ascii_only_str(osubs) and len(rcases) < ctx.budget(900, 2500):
                     oc = conforms(tp, ov)
                     oexp = outcome(ref_enc_deep, tp, ov, mem) if oc else ("raise", "", False)
                     oobs = outcome(site.encode, ov) if oc else ("raise", "", False)
@@ -2340,6 +2340,12 @@ def run(ctx: vlib.Ctx):
         "dataclass field, List element; inputs: 62 basic-form values of every scalar class, lists, dicts and garbage. "
         "distinct = (member mix in order, path, input class, verdict class, outcome). Literal: 1-4 listed values of "
         "int/bool/str/None/enum/bytes x 27 inputs.")
+    # the cone of the props file is built first with a generous time limit (a fresh copy on a loaded machine: the
+    # default limit of the props build must only cover the props file itself); failures are reported by ctx.theorems
+    vlib.coq_make(["theories/K19Proofs.vo", "theories/K21Proofs.vo", "theories/K22Proofs.vo", "theories/K43Proofs.vo",
+                   "theories/K43aProofs.vo", "theories/UnionMember.vo", "theories/UnionDeepProofs.vo", "theories/UnionDeepEncProofs.vo",
+                   "theories/PyLitProofs.vo", "theories/PyStrLit.vo", "theories/K19Cases.vo", "theories/K21Cases.vo", "theories/K22Cases.vo",
+                   "theories/K43Cases.vo", "theories/K43aCases.vo", "theories/UnionCases.vo"], timeout=2700, jobs=6)
     ctx.theorems("props/C11_union.vo", THEOREMS, kernels=["K19", "K21", "K22", "K43", "K43a"])
     ctx.trusted += [
         "UnionModel.v is hand-written from UnionUnpackerBuilder._add_body / pack_union / LiteralUnpackerBuilder / expr_or_maybe_none; "
@@ -2360,8 +2366,9 @@ def run(ctx: vlib.Ctx):
     ]
     if not ctx.quick():
         # second opinion on the compiled proofs (independent checker)
-        rc, log, secs = vlib.run(["timeout", "900", "coqchk", "-silent", "-o", "-Q", "theories", "Verif", "-Q", "gen", "VerifGen", "-Q", "props", "VerifProps",
-                                  "VerifProps.C11_union"], cwd=vlib.COQ, timeout=930)
+        # generous: on a loaded machine coqchk gets a few percent of a core
+        rc, log, secs = vlib.run(["timeout", "2700", "coqchk", "-silent", "-o", "-Q", "theories", "Verif", "-Q", "gen", "VerifGen", "-Q", "props", "VerifProps",
+                                  "VerifProps.C11_union"], cwd=vlib.COQ, timeout=2760)
         ok = rc == 0 and "Axioms: <none>" in re.sub(r"\s+", " ", log)
         ctx.obligation("coqchk VerifProps.C11_union (no axioms)", ok, log[-600:])
         if not ok:
